@@ -338,6 +338,59 @@ pub fn encodings_for(pd: &PlanDesc, tier: Tier) -> Vec<(String, Encoding)> {
             }
         }
     }
+    // classes without instances, with and without PROP chunks (which then hold no values): a
+    // known class that has a migrating legacy property, an unknown class
+    {
+        let used = enc::class_names(&plan);
+        let known = ["SpawnLocation", "TextLabel", "MeshPart"].into_iter().find(|c| !used.iter().any(|u| u == c)).unwrap_or("Seat");
+        let known_props: Vec<(String, u8)> = vec![("Name".into(), 0x01), ("BrickColor".into(), 0x0b), ("Font".into(), 0x12), ("MeshId".into(), 0x01), ("Anchored".into(), 0x02), ("size".into(), 0x0e), ("Color3uint8".into(), 0x1a), ("Tags".into(), 0x01), ("AttributesSerialize".into(), 0x01)];
+        let unknown_props: Vec<(String, u8)> = vec![("Name".into(), 0x01), ("Whatever".into(), 0x03), ("Target".into(), 0x13), ("Blob".into(), 0x1c)];
+        for (cname, plist) in [(known, &known_props), ("ZzNoInstances", &unknown_props)] {
+            for with_props in [false, true] {
+                for inst_first in [false, true] {
+                    for props_first in [false, true] {
+                        if !with_props && props_first {
+                            continue;
+                        }
+                        let mut e = base.clone();
+                        e.empty_classes = vec![(cname.to_owned(), if with_props { plist.clone() } else { vec![] }, inst_first, props_first)];
+                        out.push((format!("empty-class:{}", if with_props { "with-prop-chunks" } else { "inst-only" }), e));
+                    }
+                }
+            }
+        }
+        // one PROP chunk at a time
+        for (pn, tid) in known_props.iter().chain(unknown_props.iter()) {
+            let mut e = base.clone();
+            e.empty_classes = vec![(known.to_owned(), vec![(pn.clone(), *tid)], true, false)];
+            out.push(("empty-class:one-prop-chunk".into(), e));
+        }
+        // every migrating legacy property on a class that owns it
+        for (cn, pn, tid) in [("SpawnLocation", "BrickColor", 0x0bu8), ("SpawnLocation", "brickColor", 0x0b), ("TextLabel", "Font", 0x12), ("MeshPart", "MeshId", 0x01), ("MeshPart", "TextureID", 0x01), ("ScreenGui", "IgnoreGuiInset", 0x02), ("ImageLabel", "Image", 0x01), ("WrapLayer", "ReferenceMeshId", 0x01), ("WrapTarget", "CageMeshId", 0x01)] {
+            if used.iter().any(|u| u == cn) {
+                continue;
+            }
+            for new_first in [false, true] {
+                let new_name = match pn {
+                    "BrickColor" | "brickColor" => ("Color3uint8", 0x1au8),
+                    "Font" => ("FontFace", 0x20),
+                    "MeshId" => ("MeshContent", 0x22),
+                    "TextureID" => ("TextureContent", 0x22),
+                    "IgnoreGuiInset" => ("ScreenInsets", 0x12),
+                    "Image" => ("ImageContent", 0x22),
+                    "ReferenceMeshId" => ("ReferenceMeshContent", 0x22),
+                    _ => ("CageMeshContent", 0x22),
+                };
+                let mut e = base.clone();
+                let mut ps = vec![(pn.to_owned(), tid)];
+                if new_first {
+                    ps.insert(0, (new_name.0.to_owned(), new_name.1));
+                }
+                e.empty_classes = vec![(cn.to_owned(), ps, false, true)];
+                out.push(("empty-class:legacy-prop-chunk".into(), e));
+            }
+        }
+    }
     if let PlanDesc::Service = pd {
         let mut e = base.clone();
         e.service_format = vec!["Workspace".into(), "Lighting".into()];
